@@ -59,7 +59,8 @@ RunRecord run_driver(const sim::Json& sc) {
   // ---- simulated disk
   sim::clean_scratch();
   for (auto& kv : sc["files"].obj()) {
-    sim::write_file(sim::scratch_dir() + kv.first, kv.second.as_str());
+    const bool optfile = kv.first.size() > 4 && kv.first.compare(kv.first.size() - 4, 4, ".opt") == 0;   // option files may name files: "@/" as in argv
+    sim::write_file(sim::scratch_dir() + kv.first, optfile ? subst(kv.second.as_str()) : kv.second.as_str());
     rec.files_before[kv.first] = kv.second.as_str();
   }
 
